@@ -247,3 +247,36 @@ claim("C01",
       "equality of hashes or account state between two executions, EVM arithmetic, or nondeterminism inside cgo/goleveldb.",
       "VTA call graph over-approximates reachability; the closure stops at common/log, metrics, common/subscribe, store and store/leveldb; the 12 listed "
       "loops are confirmed by reading, not proved; go/ssa + go/types of x/tools v0.29.0; rule table lint/internal/rules/c01.go")
+
+claim("C09",
+      "copy-on-write ownership analysis of PatriciaTrie.put (SSA writes vs. dominating `node.dye == dye` edges) + fresh-copy / who-may-construct / who-may-write rules + order and guard-scope rules for pruning",
+      "Decides, for every path of the code at once, the structural necessary conditions of fork-isolated per-block views: in PatriciaTrie.put every write to memory of a "
+      "node the activation did not allocate itself (8 in-place writes: field store, children element, append / insert helper on the children array, hand-over to a callee that "
+      "writes) is only reachable through the equal edge of `thatNode.dye == dye`, callees are resolved and classified by what they do (read-only, returns a private copy), no fresh "
+      "node takes over a foreign node's children array (this rule found defect D36, repaired in /repo and now discharged; a revert is caught), and the only exception is the "
+      "prefix branch that is unreachable while all keys of one trie have one length (the five key producers are checked to derive from Address.Hex()). It further decides that "
+      "NewNormalBlock is the only constructor of a non-genesis CBlock and Clone()s all three structures of the parent that SetBlock looked up by ParentHash, that the clones own "
+      "their trie header / top list and PatriciaNode.Clone copies the children index by index; that the non-copying insert/Insert is called only from the read-through cache fill "
+      "(miss branch, value read from disk) and the start-up loader; that SetStableBlock orders heeded blockCommit before the LastConfirm assignment before clear, clear deletes exactly "
+      "Walk(old root, exclude new root) plus the new root, Walk skips exactly the excluded child, and UnConfirmBlocks has no other writer; that collected descends/appends only under "
+      "dye equality and terminal && data != nil, every node on put's write path is dyed before publication and blockCommit persists Collect(own height) of the committed block's own "
+      "trie into the batch it commits. It does NOT decide functional correctness of trie search/insert (child selection, ordering, prefix split/merge, the early return when the same "
+      "dye writes a key twice), the stale-cache question when the stable value changes, that the dye passed to Put equals the height later collected, nor memory growth.",
+      "go/types + go/ssa of x/tools v0.29.0, default build configuration; same-node identity is SSA value identity (or a re-load of the same field path); Address.Hex() having one "
+      "length and the account / candidate wrappers never sharing one PatriciaTrie are trusted for the allow-listed prefix branch; frozen caller / writer sets in "
+      "lint/internal/rules/c09.go; thread-safety of the views is C19's subject")
+
+claim("C17",
+      "narrow structural clauses only: sibling agreement of key transformation, order / every-iteration rules on the dirty-storage flush and the node-database commit, value identity of (hash, buffer) in hasher.store, index-preserving leaf fill (SSA value flow + CFG)",
+      "Decides five code-shape conditions that are necessary for 'commitments bind content': SecureTrie.TryGet/TryUpdate/TryDelete all reach the inner trie under hashKey(key parameter) "
+      "and hashKey is Reset;Write(key);Sum, Trie.TryGet/TryUpdate/TryDelete pass keybytesToHex(key) down and install the returned root only after a nil error; StorageCache.Update applies "
+      "every dirty entry in every iteration (TryDelete only for an empty value, else TryUpdate) under the entry's own key, removes it, turns a failing trie call into a failing return and "
+      "evaluates tr.Hash() only behind the loop exit; StorageCache.Save refuses while dirty is non-empty or the committed root differs; Account.updateTrie pairs each of the four caches "
+      "with its own root field; hasher.store inserts the buffer it encoded under Keccak(Reset;Write;Sum) of that very buffer or the node's cached hash; TrieDatabase.Commit passes a "
+      "heeded commit(node,batch) and a heeded batch.Commit() of the same batch before uncache(node), commit recurses (heeded) into every child before Put(hash, nodes[hash].Blob); each of "
+      "the three MerkleRootSha methods fills leaves[i] from Hash() of element i in a loop that starts at 0, steps by 1, runs to len(list) without other exit, and returns "
+      "merkle.New(leaves).Root(). NOT decided, and said so in the evidence: the root as a function of the key/value set (order, commit and eviction independence), proof soundness and the "
+      "Merkle tree shape incl. the odd-tail rule — a mutant inside Trie.insert/delete, hasher.hash/hashChildren or merkle.calculateNodes is not detected; coverage of all fields by the "
+      "element hashes is decided by C02.2/C04.1/C14.2, not here.",
+      "go/types + go/ssa of x/tools v0.29.0, default build configuration; the node's cached hash (node.cache()) is trusted to be the hash of the node's encoding; Keccak and RLP are "
+      "trusted; frozen pairing table (cache field -> root field) and method list in lint/internal/rules/c17.go")
